@@ -44,5 +44,7 @@ props! {
     "C01" => c01,
     "C02" => c02,
     "C04" => c04,
+    "C05" => c05,
+    "C06" => c06,
     "C09" => c09,
 }
